@@ -158,63 +158,93 @@ pub struct Instance;
 pub struct Persistent;
 pub struct Temporary;
 
-/// key bytes = serialisation of the key value, fixed width KW
+/// key bytes: [tag, payload..] in a fixed-width array (no intermediate buffer)
 fn keybytes(k: &Val) -> (usize, [u8; KW]) {
-    let mut o = Buf::new();
-    crate::buf::Ser::ser(k, &mut o);
-    if o.len > KW {
-        crate::mfail!("MODEL:storage key width");
-    }
     let mut a = [0u8; KW];
-    let mut j = 0;
-    while j < KW && j < crate::BCAP {
-        a[j] = o.d[j];
-        j += 1;
+    a[0] = k.tag;
+    if k.tag < T_SYM {
+        if KW < 17 {
+            crate::mfail!("MODEL:storage key width");
+        }
+        let w = k.w.to_be_bytes();
+        let mut j = 0;
+        while j < 16 && j + 1 < KW {
+            a[1 + j] = w[j];
+            j += 1;
+        }
+        (17, a)
+    } else {
+        if k.b.len + 1 > KW {
+            crate::mfail!("MODEL:storage key width");
+        }
+        let mut j = 0;
+        while j < k.b.len && j + 1 < KW && j < crate::BCAP {
+            a[1 + j] = k.b.d[j];
+            j += 1;
+        }
+        (1 + k.b.len, a)
     }
-    (o.len, a)
 }
-/// returns NSLOT when absent
-fn sfind(c: u32, d: u8, klen: usize, k: &[u8; KW]) -> usize {
-    let mut found = NSLOT;
+/// Storage is an append-only log: `set`/`remove` append a record at the (path-constant) counter
+/// S_N, `get` scans all records and keeps the newest match, accumulating the value on the way so
+/// that every array index is a constant.
+fn slot_matches(i: usize, c: u32, d: u8, klen: usize, k: &[u8; KW]) -> bool {
+    unsafe {
+        let mut same = S_C[i] == c && S_D[i] == d && S_KLEN[i] == klen;
+        let mut j = 0;
+        while j < KW {
+            if S_K[i][j] != k[j] {
+                same = false;
+            }
+            j += 1;
+        }
+        same
+    }
+}
+fn lookup(c: u32, d: u8, k: &Val) -> (bool, Val) {
+    let (kl, kb) = keybytes(k);
+    let mut present = false;
+    let mut tag = 0u8;
+    let mut w = 0u128;
+    let mut vlen = 0usize;
+    let mut vb = [0u8; VW];
     let mut i = 0;
     while i < NSLOT {
         unsafe {
-            if i < S_N && found == NSLOT && S_C[i] == c && S_D[i] == d && S_KLEN[i] == klen {
-                let mut same = true;
-                let mut j = 0;
-                while j < KW {
-                    if S_K[i][j] != k[j] {
-                        same = false;
-                    }
-                    j += 1;
-                }
-                if same {
-                    found = i;
-                }
+            if i < S_N && slot_matches(i, c, d, kl, &kb) {
+                present = S_USED[i];
+                tag = S_VTAG[i];
+                w = S_VW[i];
+                vlen = S_VLEN[i];
+                vb = S_VB[i];
             }
         }
         i += 1;
     }
-    found
-}
-fn sload(i: usize) -> Val {
-    unsafe {
-        let mut b = Buf::new();
-        let mut j = 0;
-        while j < VW && j < crate::BCAP {
-            b.d[j] = S_VB[i][j];
-            j += 1;
-        }
-        b.len = S_VLEN[i];
-        Val { tag: S_VTAG[i], w: S_VW[i], b }
+    let mut b = Buf::new();
+    let mut j = 0;
+    while j < VW && j < crate::BCAP {
+        b.d[j] = vb[j];
+        j += 1;
     }
+    b.len = vlen;
+    (present, Val { tag, w, b })
 }
-fn sstore(i: usize, v: &Val) {
+fn append(c: u32, d: u8, k: &Val, used: bool, v: &Val) {
+    let (kl, kb) = keybytes(k);
     unsafe {
+        if S_N >= NSLOT {
+            crate::mfail!("MODEL:storage capacity");
+        }
         if v.b.len > VW {
             crate::mfail!("MODEL:storage value width");
         }
-        S_USED[i] = true;
+        let i = S_N;
+        S_C[i] = c;
+        S_D[i] = d;
+        S_KLEN[i] = kl;
+        S_K[i] = kb;
+        S_USED[i] = used;
         S_VTAG[i] = v.tag;
         S_VW[i] = v.w;
         S_VLEN[i] = v.b.len;
@@ -223,54 +253,26 @@ fn sstore(i: usize, v: &Val) {
             S_VB[i][j] = v.b.d[j];
             j += 1;
         }
+        S_N += 1;
         S_WRITES += 1;
     }
 }
 pub(crate) fn raw_get(c: u32, d: u8, k: &Val) -> Option<Val> {
-    let (kl, kb) = keybytes(k);
-    let i = sfind(c, d, kl, &kb);
-    if i < NSLOT && unsafe { S_USED[i] } {
-        Some(sload(i))
+    let (present, v) = lookup(c, d, k);
+    if present {
+        Some(v)
     } else {
         None
     }
 }
 pub(crate) fn raw_has(c: u32, d: u8, k: &Val) -> bool {
-    let (kl, kb) = keybytes(k);
-    let i = sfind(c, d, kl, &kb);
-    i < NSLOT && unsafe { S_USED[i] }
+    lookup(c, d, k).0
 }
 pub(crate) fn raw_set(c: u32, d: u8, k: &Val, v: &Val) {
-    let (kl, kb) = keybytes(k);
-    let mut i = sfind(c, d, kl, &kb);
-    if i == NSLOT {
-        unsafe {
-            if S_N >= NSLOT {
-                crate::mfail!("MODEL:storage capacity");
-            }
-            i = S_N;
-            S_N += 1;
-            S_C[i] = c;
-            S_D[i] = d;
-            S_KLEN[i] = kl;
-            let mut j = 0;
-            while j < KW {
-                S_K[i][j] = kb[j];
-                j += 1;
-            }
-        }
-    }
-    sstore(i, v);
+    append(c, d, k, true, v)
 }
 pub(crate) fn raw_remove(c: u32, d: u8, k: &Val) {
-    let (kl, kb) = keybytes(k);
-    let i = sfind(c, d, kl, &kb);
-    if i < NSLOT {
-        unsafe {
-            S_USED[i] = false;
-            S_WRITES += 1;
-        }
-    }
+    append(c, d, k, false, &Val::VOID)
 }
 macro_rules! store {
     ($t:ident, $d:expr) => {
